@@ -50,6 +50,23 @@ where
         parse_chunk_size(&self.buffer)
     }
 
+    // Skips the trailer section that may follow the last chunk (RFC 9112 section 7.1.2): field
+    // lines up to the empty line ending the body. The fields are discarded; their size and their
+    // number are bounded.
+    fn skip_trailers(&mut self) -> io::Result<bool> {
+        const MAX_TRAILER_LINE_LEN: u64 = 16 * 1024;
+        const MAX_TRAILER_LINES: usize = 100;
+
+        let mut line = Vec::new();
+        for _ in 0..=MAX_TRAILER_LINES {
+            buffers::read_line(&mut self.inner, &mut line, MAX_TRAILER_LINE_LEN)?;
+            if line.is_empty() {
+                return Ok(true);
+            }
+        }
+        Ok(false)
+    }
+
     // Reads the next piece of chunk data into `buffer`.
     fn refill(&mut self) -> io::Result<()> {
         const MAX_BUFFER_LEN: usize = 64 * 1024;
@@ -66,7 +83,14 @@ where
         self.consumed = 0;
         self.remaining -= self.buffer.len();
 
-        if self.remaining == 0 && !buffers::read_line_ending(&mut self.inner)? {
+        let ended = if self.remaining > 0 {
+            true
+        } else if self.reached_eof {
+            self.skip_trailers()?
+        } else {
+            buffers::read_line_ending(&mut self.inner)?
+        };
+        if !ended {
             self.buffer.clear();
             self.reached_eof = true;
 
